@@ -18,7 +18,6 @@ import (
 	"github.com/shogo82148/goat/jwa/agcm"
 	"github.com/shogo82148/goat/jwa/agcmkw"
 	"github.com/shogo82148/goat/jwa/akw"
-	"github.com/shogo82148/goat/jwa/dir"
 	"github.com/shogo82148/goat/jwa/ecdhes"
 	"github.com/shogo82148/goat/jwa/pbes2"
 	"github.com/shogo82148/goat/jwk"
@@ -45,6 +44,9 @@ type c12Case struct {
 	Shape string `json:"shape,omitempty"` // exact | nil | empty | spare | shared | shared-capped | shared-gap
 	Spare int    `json:"spare,omitempty"` // spare capacity / guard size
 	Perm  int    `json:"perm,omitempty"`  // order of the arguments in the shared array
+	// history stream (c12_history.go): 2–4 calls on ONE object returned by NewKeyWrapper / New()
+	Steps []c12Case `json:"steps,omitempty"`
+	Conc  bool      `json:"conc,omitempty"` // additionally run the steps concurrently on that object
 	Prim   string `json:"prim"`   // akw | kdf | ecdhes | pbes2 | acbc | agcm | agcmkw | dir
 	Op     string `json:"op"`     // wrap | unwrap | enc | dec | derive | kw | only
 	Alg    int    `json:"alg"`    // parameter set 0..2 (akw: 3 = NewKeyWrapper([]byte))
@@ -523,13 +525,25 @@ type c12Exec struct {
 	d  *vf.Driver
 	cs c12Case
 	nt bool
+	// history stream: the goat objects shared by the steps, the enclosing case, the step label
+	objs *c12Objs
+	top  *c12Case
+	step string
+}
+
+// rep is the replayable case a violation is reported with (the whole history for a history step).
+func (e *c12Exec) rep() any {
+	if e.top != nil {
+		return *e.top
+	}
+	return e.cs
 }
 
 func (e *c12Exec) cmp(class, what string, got, want c12Res, kind string) bool {
 	if got.same(want) {
 		return true
 	}
-	e.c.Fail(vf.Violation{Kind: kind, Class: class, What: what, Case: e.cs, Observed: got.String(), Required: want.String()})
+	e.c.Fail(vf.Violation{Kind: kind, Class: class, What: e.step + what, Case: e.rep(), Observed: got.String(), Required: want.String()})
 	return false
 }
 
@@ -575,7 +589,7 @@ func (e *c12Exec) vector(got c12Res) {
 func (e *c12Exec) mustFail(g c12Res) {
 	if e.cs.MustFail && g.Tag == "ok" {
 		e.c.Fail(vf.Violation{Kind: "property", Class: "c12-mutant-accepted-" + e.cs.Prim, What: "altered input (" + e.cs.Mut + ") accepted by the inverse operation",
-			Case: e.cs, Observed: g.String(), Required: "error"})
+			Case: e.rep(), Observed: g.String(), Required: "error"})
 	}
 	if e.cs.Mut != "" {
 		e.c.Count("mutation/" + e.cs.Prim + "/" + e.cs.Mut + "/" + g.Tag)
@@ -585,11 +599,28 @@ func (e *c12Exec) mustFail(g c12Res) {
 func execC12(c *vf.Ctx, d *vf.Driver, cs c12Case) {
 	c12Probe(c)
 	e := &c12Exec{c: c, d: d, cs: cs, nt: true}
+	e.dispatch()
+	body, _ := json.Marshal(cs)
+	c.Case(string(body), e.nt)
+	c.Count("stream/" + cs.Stream)
+	c.Count("prim/" + cs.Prim + "." + cs.Op)
+}
+
+
+func (e *c12Exec) dispatch() {
+	cs := e.cs
 	key := cs.Prim + "." + cs.Op
 	if cs.Stream == "shape" {
 		key = "shape"
 	}
+	if cs.Stream == "history" {
+		key = "history"
+	}
 	switch key {
+	case "history":
+		e.history()
+	case "rsa.wrap", "rsa.unwrap":
+		e.rsa()
 	case "shape":
 		e.shape()
 	case "akw.wrap":
@@ -621,12 +652,8 @@ func execC12(c *vf.Ctx, d *vf.Driver, cs c12Case) {
 	case "dir.unwrap":
 		e.dir()
 	default:
-		c.Fail(vf.Violation{Kind: "correspondence", Class: "c12-bad-case", What: "unknown case kind", Case: cs})
+		e.c.Fail(vf.Violation{Kind: "correspondence", Class: "c12-bad-case", What: "unknown case kind", Case: e.rep()})
 	}
-	body, _ := json.Marshal(cs)
-	c.Case(string(body), e.nt)
-	c.Count("stream/" + cs.Stream)
-	c.Count("prim/" + cs.Prim + "." + cs.Op)
 }
 
 func goRes(f func() ([]byte, error)) c12Res {
@@ -666,7 +693,7 @@ func (e *c12Exec) expectInverse(slug string, g c12Res, orig []byte) {
 func (e *c12Exec) akwWrap() {
 	cs := e.cs
 	cek := cs.In
-	g := goRes(func() ([]byte, error) { return c12AKW(cs.Alg, cs.Key, cs.NoUse).WrapKey(append([]byte{}, cek...), nil) })
+	g := goRes(func() ([]byte, error) { return e.akw(cs.Alg, cs.Key, cs.NoUse).WrapKey(append([]byte{}, cek...), nil) })
 	valid := c12AKWKeyOK(cs.Alg, cs.Key) && len(cek)%8 == 0 && !cs.NoUse
 	var r c12Res
 	if valid {
@@ -692,7 +719,7 @@ func (e *c12Exec) akwWrap() {
 func (e *c12Exec) akwUnwrap(data, orig []byte) {
 	cs := e.cs
 	noUse := cs.NoUse && orig == nil
-	g := goRes(func() ([]byte, error) { return c12AKW(cs.Alg, cs.Key, noUse).UnwrapKey(append([]byte{}, data...), nil) })
+	g := goRes(func() ([]byte, error) { return e.akw(cs.Alg, cs.Key, noUse).UnwrapKey(append([]byte{}, data...), nil) })
 	valid := c12AKWKeyOK(cs.Alg, cs.Key) && len(data)%8 == 0 && len(data) >= 16 && !noUse
 	var r c12Res
 	if valid {
@@ -732,13 +759,19 @@ func (e *c12Exec) kdfOnly() {
 }
 
 func c12GoatECDHES(cs c12Case, data []byte) c12Res {
+	return c12GoatECDHESOn(cs, data, func(priv any) keymanage.KeyWrapper {
+		return c12ECDHES(cs.Alg).NewKeyWrapper(c12AnyKey{priv: priv, noUse: cs.NoUse})
+	})
+}
+
+func c12GoatECDHESOn(cs c12Case, data []byte, wrapper func(priv any) keymanage.KeyWrapper) c12Res {
 	priv, epk, err := c12ECKeys(cs.KeyTyp, cs.Crv, cs.Priv, cs.Pub)
 	if err != nil {
 		return c12Res{Tag: "setup", Info: err.Error()}
 	}
 	opts := &c12Opts{enc: jwa.EncryptionAlgorithm(cs.Enc), epk: epk, apu: cs.APU, apv: cs.APV}
 	return goRes(func() ([]byte, error) {
-		return c12ECDHES(cs.Alg).NewKeyWrapper(c12AnyKey{priv: priv, noUse: cs.NoUse}).UnwrapKey(data, opts)
+		return wrapper(priv).UnwrapKey(data, opts)
 	})
 }
 
@@ -755,7 +788,7 @@ func (e *c12Exec) ecdhesModel(data []byte, rec *c12Rec) c12Res {
 // ecdhesDerive: direct key agreement — UnwrapKey returns the derived key itself.
 func (e *c12Exec) ecdhesDerive() {
 	cs := e.cs
-	g := c12GoatECDHES(cs, []byte{})
+	g := c12GoatECDHESOn(cs, []byte{}, e.ecdhesw(cs))
 	if g.Tag == "setup" {
 		e.nt = false
 		return
@@ -794,7 +827,7 @@ func (e *c12Exec) ecdhesKW() {
 	if data == nil {
 		data, _ = refKWWrap(kek, cs.In)
 	}
-	g := c12GoatECDHES(cs, data)
+	g := c12GoatECDHESOn(cs, data, e.ecdhesw(cs))
 	if g.Tag == "setup" {
 		e.nt = false
 		return
@@ -816,7 +849,7 @@ func (e *c12Exec) pbes2Wrap() {
 	cs := e.cs
 	opts := &c12Opts{p2s: nz(cs.P2S), p2c: cs.P2C}
 	g := goRes(func() ([]byte, error) {
-		return c12PBES2(cs.Alg).NewKeyWrapper(c12Key(cs.Key, cs.NoUse)).WrapKey(append([]byte{}, cs.In...), opts)
+		return e.pbes2(cs.Alg, cs.Key, cs.NoUse).WrapKey(append([]byte{}, cs.In...), opts)
 	})
 	eff := cs.P2C
 	if eff == 0 {
@@ -844,14 +877,14 @@ func (e *c12Exec) pbes2Wrap() {
 			salt := q.Arr[1].Arr[2].Bytes
 			ss, _ := e.d.Call("c12.spec.pbes2.salt", []vf.Wire{vf.Int(int64(cs.Alg)), vf.Bytes(cs.P2S)}, nil)
 			if !bytes.Equal(salt, refPBES2Salt(cs.Alg, cs.P2S)) || !bytes.Equal(salt, ss.Bytes) {
-				e.c.Fail(vf.Violation{Kind: "correspondence", Class: "c12-pbes2-salt", What: "PBKDF2 salt is not UTF8(alg) ‖ 00 ‖ p2s", Case: cs,
+				e.c.Fail(vf.Violation{Kind: "correspondence", Class: "c12-pbes2-salt", What: "PBKDF2 salt is not UTF8(alg) ‖ 00 ‖ p2s", Case: e.rep(),
 					Observed: hex.EncodeToString(salt), Required: hex.EncodeToString(refPBES2Salt(cs.Alg, cs.P2S))})
 			}
 			e.c.Count("pbes2/salt-checked")
 		}
 	}
 	if g.Tag == "ok" && cs.P2C == 0 && opts.p2c != 10000 {
-		e.c.Fail(vf.Violation{Kind: "property", Class: "c12-pbes2-default-count", What: "default p2c not reported through SetPBES2Count", Case: cs,
+		e.c.Fail(vf.Violation{Kind: "property", Class: "c12-pbes2-default-count", What: "default p2c not reported through SetPBES2Count", Case: e.rep(),
 			Observed: fmt.Sprint(opts.p2c), Required: "10000"})
 	}
 	e.nt = valid
@@ -864,7 +897,7 @@ func (e *c12Exec) pbes2Unwrap(data []byte, p2c int, orig []byte) {
 	cs := e.cs
 	noUse := cs.NoUse && orig == nil
 	g := goRes(func() ([]byte, error) {
-		return c12PBES2(cs.Alg).NewKeyWrapper(c12Key(cs.Key, noUse)).UnwrapKey(append([]byte{}, data...), &c12Opts{p2s: cs.P2S, p2c: p2c})
+		return e.pbes2(cs.Alg, cs.Key, noUse).UnwrapKey(append([]byte{}, data...), &c12Opts{p2s: cs.P2S, p2c: p2c})
 	})
 	valid := len(data)%8 == 0 && len(data) >= 16 && !noUse
 	var r c12Res
@@ -893,7 +926,7 @@ func (e *c12Exec) pbes2Unwrap(data []byte, p2c int, orig []byte) {
 
 func (e *c12Exec) acbcEnc() {
 	cs := e.cs
-	g := goRes2(func() ([]byte, []byte, error) { return c12ACBC(cs.Alg).Encrypt(cs.Key, cs.IV, cs.AAD, cs.In) })
+	g := goRes2(func() ([]byte, []byte, error) { return e.acbc(cs.Alg).Encrypt(cs.Key, cs.IV, cs.AAD, cs.In) })
 	re, rt, rok := refCBCEncrypt(cs.Alg, cs.Key, cs.IV, cs.AAD, cs.In)
 	r := c12Err("")
 	if rok {
@@ -913,7 +946,7 @@ func (e *c12Exec) acbcEnc() {
 		padded := append(append([]byte{}, cs.In...), bytes.Repeat([]byte{byte(pad)}, pad)...)
 		lib := StdOracle("cbc.enc", []vf.Wire{vf.Bytes(cs.Key[len(cs.Key)-p.encKeyLen:]), vf.Bytes(cs.IV), vf.Bytes(padded)})
 		if !bytes.Equal(lib.Bytes, m.A) {
-			e.c.Fail(vf.Violation{Kind: "correspondence", Class: "c12-oracle-law", What: "CBC chaining over aes.enc differs from cipher.NewCBCEncrypter", Case: cs,
+			e.c.Fail(vf.Violation{Kind: "correspondence", Class: "c12-oracle-law", What: "CBC chaining over aes.enc differs from cipher.NewCBCEncrypter", Case: e.rep(),
 				Observed: hex.EncodeToString(m.A), Required: hex.EncodeToString(lib.Bytes)})
 		}
 		e.c.Count("law/cbc-chaining")
@@ -923,7 +956,7 @@ func (e *c12Exec) acbcEnc() {
 
 func (e *c12Exec) acbcDec(ct, tag, orig []byte) {
 	cs := e.cs
-	g := goRes(func() ([]byte, error) { return c12ACBC(cs.Alg).Decrypt(cs.Key, cs.IV, cs.AAD, ct, tag) })
+	g := goRes(func() ([]byte, error) { return e.acbc(cs.Alg).Decrypt(cs.Key, cs.IV, cs.AAD, ct, tag) })
 	r := c12FromRef(refCBCDecrypt(cs.Alg, cs.Key, cs.IV, cs.AAD, ct, tag))
 	rec := &c12Rec{c: e.c}
 	m := c12FromWire(e.d.Call("c12.acbc.dec", []vf.Wire{vf.Int(int64(cs.Alg)), vf.Bytes(cs.Key), vf.Bytes(cs.IV), vf.Bytes(cs.AAD), vf.Bytes(ct), vf.Bytes(tag)}, rec.oracle))
@@ -942,7 +975,7 @@ func (e *c12Exec) acbcDec(ct, tag, orig []byte) {
 func (e *c12Exec) agcmEnc() {
 	cs := e.cs
 	kl := c12KeySizes[cs.Alg]
-	g := goRes2(func() ([]byte, []byte, error) { return c12AGCM(cs.Alg).Encrypt(cs.Key, cs.IV, cs.AAD, cs.In) })
+	g := goRes2(func() ([]byte, []byte, error) { return e.agcm(cs.Alg).Encrypt(cs.Key, cs.IV, cs.AAD, cs.In) })
 	rc, rt, rok := refGCMSeal(kl, cs.Key, cs.IV, cs.AAD, cs.In)
 	r := c12Err("")
 	if rok {
@@ -962,7 +995,7 @@ func (e *c12Exec) agcmEnc() {
 func (e *c12Exec) agcmDec(ct, tag, orig []byte) {
 	cs := e.cs
 	kl := c12KeySizes[cs.Alg]
-	g := goRes(func() ([]byte, error) { return c12AGCM(cs.Alg).Decrypt(cs.Key, cs.IV, cs.AAD, ct, tag) })
+	g := goRes(func() ([]byte, error) { return e.agcm(cs.Alg).Decrypt(cs.Key, cs.IV, cs.AAD, ct, tag) })
 	r := c12FromRef(refGCMOpen(kl, cs.Key, cs.IV, cs.AAD, ct, tag))
 	if len(tag) != 16 && len(cs.Key) == kl && len(cs.IV) == 12 {
 		// goat concatenates ct‖tag and lets the library split off the last 16 octets; with |tag| ≠ 16
@@ -975,7 +1008,7 @@ func (e *c12Exec) agcmDec(ct, tag, orig []byte) {
 	if len(tag) != 16 && len(cs.Key) == kl && len(cs.IV) == 12 && g.Tag == "ok" {
 		// finding c12-agcm-tag-length (fixed upstream by "require a 128-bit authentication tag in AES-GCM
 		// decryption"): without the tag size check a re-split (ct, tag) pair decrypts
-		e.c.Fail(vf.Violation{Kind: "property", Class: "c12-agcm-tag-length", What: "agcm.Decrypt accepts an authentication tag that is not 128 bits (re-split ct/tag pair)", Case: cs, Observed: g.String(), Required: "error (RFC 7518 §5.3)"})
+		e.c.Fail(vf.Violation{Kind: "property", Class: "c12-agcm-tag-length", What: "agcm.Decrypt accepts an authentication tag that is not 128 bits (re-split ct/tag pair)", Case: e.rep(), Observed: g.String(), Required: "error (RFC 7518 §5.3)"})
 	} else {
 		e.all4("agcm-dec", g, r, m, s, true, true)
 	}
@@ -994,7 +1027,7 @@ func (e *c12Exec) agcmkwWrap() {
 	kl := c12KeySizes[cs.Alg]
 	opts := &c12Opts{iv: cs.IV}
 	g := goRes(func() ([]byte, error) {
-		return c12AGCMKW(cs.Alg).NewKeyWrapper(c12Key(cs.Key, cs.NoUse)).WrapKey(append([]byte{}, cs.In...), opts)
+		return e.agcmkw(cs.Alg, cs.Key, cs.NoUse).WrapKey(append([]byte{}, cs.In...), opts)
 	})
 	if g.Tag == "ok" {
 		g = c12OK2(g.A, opts.tag)
@@ -1023,7 +1056,7 @@ func (e *c12Exec) agcmkwUnwrap(data, tag, orig []byte) {
 	kl := c12KeySizes[cs.Alg]
 	noUse := cs.NoUse && orig == nil
 	g := goRes(func() ([]byte, error) {
-		return c12AGCMKW(cs.Alg).NewKeyWrapper(c12Key(cs.Key, noUse)).UnwrapKey(append([]byte{}, data...), &c12Opts{iv: cs.IV, tag: tag})
+		return e.agcmkw(cs.Alg, cs.Key, noUse).UnwrapKey(append([]byte{}, data...), &c12Opts{iv: cs.IV, tag: tag})
 	})
 	out, ok := refGCMOpen(kl, cs.Key, cs.IV, []byte{}, data, tag)
 	r := c12FromRef(out, ok && !noUse)
@@ -1046,14 +1079,14 @@ func (e *c12Exec) agcmkwUnwrap(data, tag, orig []byte) {
 
 func (e *c12Exec) dir() {
 	cs := e.cs
-	g := goRes(func() ([]byte, error) { return dir.New().NewKeyWrapper(c12Key(cs.Key, cs.NoUse)).UnwrapKey(cs.In, nil) })
+	g := goRes(func() ([]byte, error) { return e.dirw(cs.Key, cs.NoUse).UnwrapKey(cs.In, nil) })
 	m := c12FromWire(e.d.Call("c12.dir.unwrap", []vf.Wire{vf.Bool(!cs.NoUse), vf.Bytes(cs.Key), vf.Bytes(cs.In)}, nil))
 	want, want2 := c12OK(cs.Key), c12OK([]byte{})
 	if cs.NoUse {
 		want, want2 = c12Err(""), c12Err("")
 	}
 	e.all4("dir-unwrap", g, want, m, c12Res{}, true, false)
-	g2 := goRes(func() ([]byte, error) { return dir.New().NewKeyWrapper(c12Key(cs.Key, cs.NoUse)).WrapKey(cs.In, nil) })
+	g2 := goRes(func() ([]byte, error) { return e.dirw(cs.Key, cs.NoUse).WrapKey(cs.In, nil) })
 	m2 := c12FromWire(e.d.Call("c12.dir.wrap", []vf.Wire{vf.Bool(!cs.NoUse), vf.Bytes(cs.Key), vf.Bytes(cs.In)}, nil))
 	e.all4("dir-wrap", g2, want2, m2, c12Res{}, true, false)
 }
